@@ -80,4 +80,11 @@ theorem C19_switch_saves_agree (P : Program) (val : Node → Option Val) (hsw : 
   have b := (C19_switch_saved_value_is_final P val hsw hsol s₂ log₂ h₂ n v₂ hm₂).1
   rw [a] at b; exact Option.some.inj b
 
+/-- **C19 (switch / one-of pipelines)**: every value handed to the artifact store is the final value of its node, never an
+exception object stored by a one-of scope and never a marker -/
+theorem C19_oneof_saved_value_is_final (P : Program) (val : Node → Option Val) (hone : OneP P)
+    (hsol : SolutionOne P val) (s : St) (log : List Obs) (h : Exec P s log) (n : Node) (v : Val)
+    (hm : Obs.save n v ∈ log) : val n = some v ∧ v.isRecur = false ∧ v.isExc = false :=
+  (safe_exec hone hsol h).2 _ hm
+
 end MLPE.Eng
